@@ -9,8 +9,9 @@ Follows
                              blocks), transports/_mixins.py.j2, transports/_rest_mixins_base.py.j2,
                              _shared_macros.j2 (generate_mixin_call_method, prep_wrapped_messages_async_method)
 The model follows the code, not the intent: see `iamOverrides` (drops ALL IAM mixins),
-`legacyAsyncLookupOk`, `restCall` (body presence is decided by the FIRST binding).  Since the `fix:` commit
-feb77eb the WaitOperation stub deserialises its reply like GetOperation (`grpcTable`).
+`restCall` (body presence is decided by the FIRST binding).  Since the `fix:` commits feb77eb / 0e4f131 the
+WaitOperation stub deserialises its reply like GetOperation (`grpcTable`) and the legacy asyncio IAM
+methods wrap the transport method on the fly (`grpcCall`).
 -/
 namespace GapicModel.Model.Mixins
 
@@ -212,25 +213,20 @@ def canonicalResp (m : String) : Option Resp :=
 /-- is `m` served by the legacy block (`opts.add_iam_methods`) rather than by the mixin templates -/
 def isLegacy (o : Opts) (m : String) : Bool := o.addIam && tmplIam.contains m
 
-/-- The legacy asyncio methods look the callable up in `transport._wrapped_methods`, which
-`prep_wrapped_messages_async_method` fills from the service's own methods and `api.mixin_api_methods`
-only; the legacy sync methods wrap on the fly. -/
-def legacyAsyncLookupOk (y : Yaml) (api : Api) (m : String) : Bool :=
-  (keys (mixinApiMethods y api)).contains m
-
 inductive GrpcOutcome where
   | absent                    -- the client class has no such mixin method
-  | keyError                  -- `_wrapped_methods[...]` lookup fails
   | sent (spec : GrpcSpec)
 deriving DecidableEq, Repr
 
-/-- calling mixin method `m` on the `k` client over gRPC -/
+/-- calling mixin method `m` on the `k` client over gRPC.  Mixin-template methods take the callable from
+`transport._wrapped_methods` (filled from `api.mixin_api_methods`, the very set that guards the method);
+the legacy methods of BOTH clients wrap the transport method at call time (asyncio: since the `fix:`
+commit 0e4f131 — before it they looked it up in `_wrapped_methods` and raised KeyError). -/
 def grpcCall (y : Yaml) (api : Api) (o : Opts) (k : ClientKind) (m : String) : GrpcOutcome :=
   if !(exposedMixins y api o k).contains m then .absent
   else match grpcSpec m with
     | none => .absent
-    | some s =>
-      if isLegacy o m && k = .async && !legacyAsyncLookupOk y api m then .keyError else .sent s
+    | some s => .sent s
 
 /-! ### REST -/
 
